@@ -156,7 +156,7 @@ Notify [grp="g2"]:
     Push:
         Audit <- Log
         Store <- Save
-SeqProj [seqtitle="%(epname)", owner="docs"]:
+SeqProj [seqtitle="%(epname)", owner="docs", blackboxes=[["Store <- Load", "application level note"], ["Audit <- Log", "x"]]]:
     SEQ-A [blackboxes=[["Store <- Load", "not shown here"]]]:
         Shop <- Refresh
     SEQ-B:
